@@ -146,7 +146,10 @@ def main() -> int:
             mod.run_case(case, ctx)
         except Exception as exc:  # pylint: disable=broad-except
             tb = traceback.format_exc()
-            if _in_repo(exc.__traceback__):
+            if "numba/core/caching.py" in tb or "numba/core/serialize.py" in tb:
+                # failure of numba's on-disk cache machinery (harness-side instrumentation), never a verdict on the code
+                ctx.inconclusive.append(f"numba cache failure in case {json.dumps(case, default=str)[:200]}: {tb[-400:]}")
+            elif _in_repo(exc.__traceback__):
                 ctx.violation(
                     "exception-in-repo-code",
                     f"{type(exc).__name__}: {exc}",
